@@ -50,6 +50,9 @@ def check(repo: Repo, rep, tier):
     site_key(repo, rep)
     hasrepr_eq(repo, rep)
     xdist_worker(repo, rep)
+    from .C03 import import_position
+
+    import_position(repo, rep)
 
 
 def create_exh(repo: Repo, rep):
